@@ -16,7 +16,7 @@ pub fn def() -> CheckDef {
         meta: CheckMeta {
             id: "C09",
             level: "exploration",
-            rule: "scenarios of 2-3 writer threads, each doing 1-2 read-modify-write increments of a counter key (plus a bulk value, so that the first commits have to grow a fresh 4-page file: resize takes the map lock exclusively) with 1-2 reader threads; every thread holds at most one transaction. Schedules as in C04: all schedules with <= p preemptions by depth-first re-execution (p = 2 quick, 3 thorough, capped), then seeded random / PCT schedules. Oracles: (1) a flag set after tx(true) returns and cleared before commit is never found set (mutual exclusion); (2) the counter read inside each committed transaction is unique and the final counter equals the number of successful commits (no lost update); a reader never sees a counter below the number of commits that had returned before it began; (3) a reader never reports itself blocked on a lock while every other thread is parked outside jammdb (a reader blocked by an idle, uncommitted open writer); a committing writer waiting for open readers before it grows the file, and writers waiting for each other, are legitimate; (4) no state in which every live thread is blocked, every execution ends within the step bound, and no thread stays blocked when the controller lets everything run free. Non-trivial = schedule with >= 1 preemption in which a writer had to wait for the writer lock or a thread had to wait for the map lock during a resize. Distinct = hash of the choice sequence (per scenario).",
+            rule: "scenarios of 2-3 writer threads, each doing 1-2 read-modify-write increments of a counter key (plus a bulk value; in half of the scenarios the file is a fresh 4-page file, so the first commits have to grow it: resize takes the map lock exclusively; the other half is pre-sized and never resizes) with 1-2 reader threads; every thread holds at most one transaction. Schedules as in C04: all schedules with <= p preemptions by depth-first re-execution (p = 2 quick, 3 thorough, capped), then seeded random / PCT schedules. Oracles: (1) a flag set after tx(true) returns and cleared before commit is never found set (mutual exclusion); (2) the counter read inside each committed transaction is unique and the final counter equals the number of successful commits (no lost update); a reader never sees a counter below the number of commits that had returned before it began; (3) a reader never reports itself blocked on a lock while every other thread is parked outside jammdb (a reader blocked by an idle, uncommitted open writer); a committing writer waiting for open readers before it grows the file, and writers waiting for each other, are legitimate; (4) no state in which every live thread is blocked, every execution ends within the step bound, and no thread stays blocked when the controller lets everything run free. Non-trivial = schedule with >= 1 preemption in which a writer had to wait for the writer lock or a thread had to wait for the map lock during a resize. Distinct = hash of the choice sequence (per scenario).",
             assumptions: &[
                 "liveness is checked as: no reachable all-blocked state, termination within a step bound under every explored schedule; fairness is not modelled",
                 "the controller explores a superset of the schedules std's RwLock (writer-preferring) allows, which is sound for these safety oracles",
@@ -94,7 +94,7 @@ fn build(sc: &Scenario, db: &DB, sh: Arc<Shared>) -> Vec<ThreadFn> {
     for r in 0..sc.readers {
         let db = db.clone();
         let sh = sh.clone();
-        let holds = sc.holds;
+        let holds = sc.holds % 8;
         ts.push(Box::new(move |ctx: ThreadCtx| {
             let res = catch(|| -> Result<(), String> {
                 ctx.yield_now("h:reader:start");
@@ -136,9 +136,12 @@ fn build(sc: &Scenario, db: &DB, sh: Arc<Shared>) -> Vec<ThreadFn> {
     ts
 }
 
-pub fn prepare_template(path: &Path) -> Result<(), Failure> {
+pub fn prepare_template(path: &Path, presized: bool) -> Result<(), Failure> {
     let _ = std::fs::remove_file(path);
-    catch(|| OpenOptions::new().pagesize(1024).num_pages(4).open(path).map(|_| ()))
+    // growth scenarios start from a fresh 4-page file: the first commit has to extend it
+    // (8 MiB step, exclusive map lock); pre-sized scenarios never resize and are much cheaper
+    let np = if presized { 256 } else { 4 };
+    catch(|| OpenOptions::new().pagesize(1024).num_pages(np).open(path).map(|_| ()))
         .map_err(Failure::from_panic)?
         .map_err(|e| Failure::new("harness_panic", format!("template: {}", e)))
 }
@@ -204,9 +207,11 @@ pub fn run_once(sc: &Scenario, template: &Path, work: &Path, plan: &[usize], str
 fn shard(ctx: &ShardCtx, known: &Known) -> ShardOut {
     let mut out = ShardOut::default();
     // pattern: bit 0 = third writer, /2%3 = bulk size
-    let sc = Scenario { readers: 1 + (ctx.shard / 6) % 2, commits: 1 + (ctx.shard / 12) % 2, pattern: (ctx.shard % 6) as u8, holds: 1 };
+    // holds >= 8 marks a pre-sized (no growth) scenario
+    let presized = ctx.shard % 2 == 1;
+    let sc = Scenario { readers: 1 + (ctx.shard / 4) % 2, commits: 1 + (ctx.shard / 8) % 2, pattern: ((ctx.shard / 2) % 6) as u8, holds: if presized { 9 } else { 1 } };
     let template = ctx.db_path("c09.template.db");
-    if let Err(f) = prepare_template(&template) {
+    if let Err(f) = prepare_template(&template, presized) {
         out.inconclusive.push(f.line());
         return out;
     }
@@ -225,7 +230,7 @@ fn shard(ctx: &ShardCtx, known: &Known) -> ShardOut {
         r
     };
     let bound = ctx.tier.pick(2, 3);
-    let max_execs = ctx.tier.pick(6_000, 150_000);
+    let max_execs = if presized { ctx.tier.pick(8_000, 300_000) } else { ctx.tier.pick(2_000, 60_000) };
     let mut ok = true;
     // all schedules with at most one preemption first (always completes), then the larger bound
     let stats1 = dfs(1, max_execs, |plan| {
@@ -244,9 +249,9 @@ fn shard(ctx: &ShardCtx, known: &Known) -> ShardOut {
         (t, pass)
     });
     out.exhaustive = Some(stats.complete);
-    out.extra.insert("dfs".into(), serde_json::json!([{"scenario": {"writers": 2 + (sc.pattern % 2), "increments_each": sc.commits, "readers": sc.readers, "bulk": sc.pattern / 2 % 3}, "bound": bound, "executions": stats.executions, "complete": stats.complete, "diverged": stats.diverged, "longest_trace": stats.max_trace}]));
+    out.extra.insert("dfs".into(), serde_json::json!([{"scenario": {"writers": 2 + (sc.pattern % 2), "increments_each": sc.commits, "readers": sc.readers, "bulk": sc.pattern / 2 % 3, "file_growth": !presized}, "bound": bound, "executions": stats.executions, "complete": stats.complete, "diverged": stats.diverged, "longest_trace": stats.max_trace}]));
     if ok {
-        let n = ctx.tier.pick(1500, 30000);
+        let n = if presized { ctx.tier.pick(2000, 60000) } else { ctx.tier.pick(400, 12000) };
         for i in 0..n {
             let seed = mix(ctx.shard_seed("c09-rand"), i as u64);
             let sid = if i % 2 == 0 { 1 } else { 2 };
@@ -266,7 +271,7 @@ pub fn replay(fr: &FailRec, dir: &std::path::Path) -> Option<Failure> {
         Err(e) => return Some(Failure::new("harness_panic", format!("bad C09 case: {}", e))),
     };
     let template = dir.join("c09.template.db");
-    if let Err(f) = prepare_template(&template) {
+    if let Err(f) = prepare_template(&template, case.scenario.holds >= 8) {
         return Some(f);
     }
     let strat = match case.strategy {
